@@ -14,20 +14,24 @@ def run_flow_check(pid, tier, own, closed_cases, real_cases, gen=0, gen_kw=None,
     rng = random.Random(seed() * 7919 + sum(map(ord, pid)))
     build("wfdriver")
     # ---- 1. exhaustive closed-model checking of the zoo ------------------------------------
+    def mk(c):
+        inst = zoo.ZOO[c[0]](**c[1])
+        if len(c) > 2:
+            inst.update(c[2])
+        return inst
     def closed(c):
-        name, kw = c
-        inst = zoo.ZOO[name](**kw)
+        inst = mk(c)
         r = fc.closed_model(inst, liveness=True, workers=4, timeout=1500 if tier == "thorough" else 300)
         return c, inst, r
     model_cex = []
     for c, inst, r in pmap(closed, closed_cases, workers=4):
         if r.error:
-            chk.undecided.append("closed model %s%s: %s" % (c[0], c[1], r.error[-200:])); continue
+            chk.undecided.append("closed model %s%s: %s" % (c[0], c[1:], r.error[-200:])); continue
         chk.add_tlc(r)
         chk.evaluations += 1
         if r.ok:
-            chk.nontrivial.add("closed:%s:%s" % (c[0], json.dumps(c[1], sort_keys=True)))
-            chk.sample(dict(kind="closed-model", instance=c[0], params=c[1], distinct_states=r.distinct, generated=r.generated))
+            chk.nontrivial.add("closed:%s:%s" % (c[0], json.dumps(c[1:], sort_keys=True)))
+            chk.sample(dict(kind="closed-model", instance=c[0], params=c[1:], distinct_states=r.distinct, generated=r.generated))
         else:
             what = r.violated or ("deadlock" if r.deadlock else "?")
             model_cex.append((c, inst, what, r.trace))
@@ -43,7 +47,7 @@ def run_flow_check(pid, tier, own, closed_cases, real_cases, gen=0, gen_kw=None,
             chk.sample(dict(kind="weakened-model", flag=flag, instance=name, counterexample=got, last_actions=r.trace[-5:]))
             chk.extra.setdefault("weak_variants_refuted", []).append(flag)
     # ---- 3. real runs of the same instances + generated graphs ------------------------------
-    insts = [(n, zoo.ZOO[n](**kw)) for n, kw in real_cases]
+    insts = [(c[0], mk(c)) for c in real_cases]
     for i in range(gen):
         g = zoo.gen_graph(rng, name="G%d" % i, **(gen_kw or {}))
         insts.append(("G%d" % i, g))
@@ -82,9 +86,9 @@ def run_flow_check(pid, tier, own, closed_cases, real_cases, gen=0, gen_kw=None,
     for c, inst, what, trace in model_cex:
         if "cex:" + c[0] not in reproduced:
             chk.undecided.append("closed model of %s%s: %s (last actions %s) was NOT reproduced on the real binary - model or harness wrong"
-                                 % (c[0], c[1], what, trace[-5:]))
+                                 % (c[0], c[1:], what, trace[-5:]))
     chk.extra["exhaustive"] = False
-    chk.extra["instances_closed"] = ["%s%s" % c for c in closed_cases]
+    chk.extra["instances_closed"] = ["%s%s" % (c[0], c[1:]) for c in closed_cases]
     return chk.finish()
 
 QUICK_CLOSED = [("Z1", dict(n=2)), ("Z2", dict(n=2)), ("Z3", dict(n=2)), ("Z4", dict(n=1)), ("Z5", dict(n=3, m=1)),
@@ -95,12 +99,16 @@ THOROUGH_CLOSED = QUICK_CLOSED + [("Z1", dict(n=3)), ("Z1", dict(n=3, buf=2)), (
                                   ("Z7", dict(n=2, mx=1)), ("Z10", dict(n=4, buf=2, mx=2)), ("Z6", dict(n=3))]
 REAL = [("Z1", dict(n=4)), ("Z2", dict(n=4)), ("Z3", dict(n=4)), ("Z4", dict(n=3)), ("Z5", dict(n=3, m=1)), ("Z6", dict(n=3)),
         ("Z7", dict(n=3)), ("Z8", dict(n=3)), ("Z9", dict(n=3)), ("Z10", dict(n=5)), ("Z13", dict(n=3)), ("Z14", dict(n=4)),
-        ("Z15", {}), ("Z16", dict(n=3)), ("Z5b", dict(n=4, m=1)), ("Z5b", dict(n=6, m=1, buf=2)), ("Z17", dict(n=5))]
+        ("Z15", {}), ("Z16", dict(n=3)), ("Z5b", dict(n=4, m=1)), ("Z5b", dict(n=6, m=1, buf=2)), ("Z17", dict(n=5)),
+        # partially completed earlier runs: outputs of later items exist already
+        ("Z1", dict(n=4, mx=3), dict(pre=["a.out_3_w"])), ("Z1", dict(n=4, mx=3), dict(pre=["a.out_2_v", "a.out_4_y"])),
+        ("Z3", dict(n=4, mx=3), dict(pre=["a.out_3", "b.out_2"])), ("Z2", dict(n=3), dict(pre=["a.out_2", "a.out_3"]))]
+PRE_CLOSED = [("Z1", dict(n=3, mx=2), dict(pre=["a.out_2_v"])), ("Z3", dict(n=2), dict(pre=["a.out_2"]))]
 
 @register("C04")
 def check_C04(tier):
     return run_flow_check("C04", tier, {"C04"},
-        closed_cases=THOROUGH_CLOSED if tier == "thorough" else QUICK_CLOSED,
+        closed_cases=(THOROUGH_CLOSED if tier == "thorough" else QUICK_CLOSED) + PRE_CLOSED,
         real_cases=REAL, gen=40 if tier == "thorough" else 10, nvar=8 if tier == "thorough" else 4,
         weak_cases=[("Z2", dict(n=1), "SendFirstRemoteOnly", "C04_AtReturn")],
         rule="closed: every interleaving of each zoo instance (Flow.tla, Closed=TRUE); real: seeded jittered runs of zoo "
@@ -111,10 +119,13 @@ def check_C04(tier):
 
 @register("C05")
 def check_C05(tier):
-    slow = []
+    extras = [("Z1", dict(n=3), dict(ctl={"a.extra": "side.log sub/dir/side2.log"})),
+              # an extra file that cannot be moved out (a directory of the same name is in the way)
+              ("Z1", dict(n=2), dict(ctl={"b.extra": "report"}, mkdirs=["report"])),
+              ("Z13", dict(n=4, mx=3)), ("Z13", dict(n=3, mx=4))]
     return run_flow_check("C05", tier, {"C05"},
         closed_cases=THOROUGH_CLOSED if tier == "thorough" else QUICK_CLOSED,
-        real_cases=REAL, gen=40 if tier == "thorough" else 10, nvar=8 if tier == "thorough" else 4,
+        real_cases=REAL + extras, gen=40 if tier == "thorough" else 10, nvar=8 if tier == "thorough" else 4,
         gen_kw=dict(allow_leaf=True),
         weak_cases=[("Z17", dict(n=4), "SpawnAllThenWait", "deadlock"), ("Z9", dict(n=1), "SinkOnlyIfDriver", "C05_NoEarly"),
                     ("Z1", dict(n=2), "CloseBeforeDrain", "C04/C05")] +
@@ -126,9 +137,11 @@ def check_C05(tier):
 @register("C08")
 def check_C08(tier):
     return run_flow_check("C08", tier, {"C08"},
-        closed_cases=[("Z1", dict(n=3, mx=3)), ("Z7", dict(n=2, mx=2)), ("Z2", dict(n=2)), ("Z4", dict(n=1))] +
+        closed_cases=[("Z1", dict(n=3, mx=3)), ("Z7", dict(n=2, mx=2)), ("Z2", dict(n=2)), ("Z4", dict(n=1)), ("Z1", dict(n=3, mx=2), dict(pre=["a.out_2_v"]))] +
                      ([("Z1", dict(n=3, buf=2, mx=3)), ("Z4", dict(n=2)), ("Z3", dict(n=2))] if tier == "thorough" else []),
-        real_cases=[("Z1", dict(n=5, mx=4)), ("Z7", dict(n=4, mx=4)), ("Z2", dict(n=4, mx=4)), ("Z4", dict(n=3, mx=3)), ("Z3", dict(n=4, mx=4))],
+        real_cases=[("Z1", dict(n=5, mx=4)), ("Z7", dict(n=4, mx=4)), ("Z2", dict(n=4, mx=4)), ("Z4", dict(n=3, mx=3)), ("Z3", dict(n=4, mx=4)),
+                    ("Z1", dict(n=4, mx=3), dict(pre=["a.out_3_w"])), ("Z1", dict(n=5, mx=4), dict(pre=["a.out_2_v", "a.out_5_z"])),
+                    ("Z3", dict(n=4, mx=3), dict(pre=["a.out_3", "b.out_2"])), ("Z4", dict(n=4, mx=3, buf=1)), ("Z4", dict(n=6, mx=2, buf=2))],
         gen=20 if tier == "thorough" else 6, nvar=8 if tier == "thorough" else 4,
         weak_cases=[("Z1", dict(n=2), "AnyDoneOrder", "C08_Order")],
         rule="closed: tasks finish in every order; real: jittered runs, per-connection send order compared with task creation order "
